@@ -4192,8 +4192,10 @@ class SSHClientConnection(SSHConnection):
                 if key in self._revoked_host_keys:
                     revoked.append(key)
                 elif key in self._trusted_host_keys:
-                    retained.append(key)
-                    removed.remove(key)
+                    # A key may be listed more than once
+                    if key in removed:
+                        retained.append(key)
+                        removed.remove(key)
                 else:
                     prove.append((key, String(key_data)))
             except KeyImportError:
